@@ -14,7 +14,7 @@ import (
 // for it; later questions for the same address get the same answer. It logs every invocation.
 type vResolver struct {
 	addrs   []string
-	kinds   []uint8 // 0 names, 1 empty, 2 error
+	kinds   []uint8 // 0 names, 1 empty, 2 error, 3 the lookup's own deadline expired
 	calls   []string
 	started []int64
 }
@@ -31,6 +31,8 @@ func (r *vResolver) lookup(ctx context.Context, addr string) ([]string, error) {
 		return []string{"name-of-" + addr}, nil
 	case 1:
 		return nil, nil
+	case 3:
+		return nil, context.DeadlineExceeded
 	}
 	return nil, errors.New("lookup failed")
 }
@@ -42,7 +44,7 @@ func (r *vResolver) kindOf(addr string) uint8 {
 		}
 	}
 	k := V.U8("answerKind")
-	V.Assume(k <= 2)
+	V.Assume(int(k) <= V.ParamInt("maxKind", 3))
 	kk := uint8(V.Concretize(int(k)))
 	r.addrs = append(r.addrs, addr)
 	r.kinds = append(r.kinds, kk)
@@ -107,5 +109,24 @@ func Verif_C18_rdns() {
 		V.Assert(V.All(h.TTL == before[j].ttl, V.BytesEq(h.IPAddress, before[j].ip), h.IsDest == before[j].dest), "C18/rest-of-document-unchanged")
 	}
 	V.Assert(V.LiveGoroutines() == 0, "C10/no-goroutine-outlives-the-call")
+	// second round, resolver healthy again: a stored success is served without asking; a failure was not stored,
+	// so the address is asked again and now gets its names
+	for i := range res.addrs {
+		if V.ParamInt("retry", 1) == 0 {
+			break
+		}
+		addr, was := res.addrs[i], res.kinds[i]
+		res.kinds[i] = 0
+		n := len(res.calls)
+		names, err := reversedns.GetReverseDns(addr)
+		if was <= 1 {
+			V.Assert(len(res.calls) == n, "C18/stored-success-not-requeried")
+			V.Assert(err == nil && ((was == 0 && len(names) == 1) || (was == 1 && len(names) == 0)), "C18/stored-success-served")
+		} else {
+			V.Reach("retry-after-failure")
+			V.Assert(len(res.calls) == n+1, "C18/failure-was-not-cached")
+			V.Assert(err == nil && len(names) == 1 && names[0] == "name-of-"+addr, "C18/failure-was-not-cached")
+		}
+	}
 	V.Reach("end")
 }
